@@ -1493,9 +1493,10 @@ func (a *align) MaxCharStats(ignoreGaps, ignoreNs bool) (out []uint8, occur []in
 		for k, v := range mapstats {
 			// If we exclude gaps and it is a gap: we do nothing
 			// Otherwise, if v > max, we update max occurence char
+			// (ties: the smallest character wins, whatever the map iteration order)
 			if !(ignoreGaps && k == GAP) && !(ignoreNs && (k == all || k == allc)) {
 				total[site] += v
-				if v > max {
+				if v > max || (v == max && k < out[site]) {
 					out[site] = k
 					occur[site] = v
 					max = v
